@@ -8,6 +8,12 @@ ENGINES = [
 ]
 NOT_APPLICABLE = {}
 CLAIMED = {
+ "C14": {
+  "engine": "tlc + csl-conform (spec/lib/BigNat.tla, Value.tla, CBOR.tla; spec/sys/Numeric.tla; spec/mc/MC_Numeric.tla, MC_BigNat.tla; spec/trace/Trace_Numeric.tla)",
+  "technique": "TLA+ exact semantics of BigNum/Int/BigInt/Value/mint accumulation over base-256 big naturals; TLC enumerates an operand lattice (64-bit edges, -2^64, out-of-range and malformed strings, non-minimal CBOR, a 48-value Value universe) and checks the Value laws on the model; every case and seeded random operands are executed on the real types and each observation (value, accessors, CBOR bytes, decimal and JSON round trips) is validated by TLC",
+  "text": "Bounded-exhaustive operand lattice (about 14k cases quick) plus random operands up to 2000 bits, every result compared with the exact mathematical one by TLC; Value laws model-checked on the specification's own operators. Not a proof for all operands.",
+  "note": "Trusted: TLC, BigNat.tla (self-tested against native integers by MC_BigNat), the CBOR integer grammar in CBOR.tla, harness logging (negative control --selftest). Division by zero and non-canonical decimal strings are outside the statement (only 'no panic'). Dev profile.",
+ },
  "C15": {
   "engine": "tlc + csl-conform (spec/sys/Fees.tla, spec/mc/MC_Fees.tla, spec/trace/Trace_Fees.tla)",
   "technique": "TLA+ definition of the ledger fee functions over base-256 big naturals; TLC checks closed form = tier recursion on a grid; every grid point and seeded random arguments are called on the real functions and the recorded results validated by TLC (floor/ceiling by bracketing)",
